@@ -2,6 +2,9 @@
 from ir import last_seg
 import analysis as A
 import common as K
+import sqlmod
+import sqlrules
+import tables
 
 INTACT = ["pubkey", "kind", "created_at", "content", "tags", "event"]
 WRITE_CALLS = ("save_message", "save_processed_message")
@@ -239,3 +242,14 @@ def run(ctx, rep):
     clause_echo_table(prog, rep, scope)
     clause_lookback(prog, rep, scope)
     clause_dedup_transient(prog, rep, roots)
+    # losing-branch messages: what the rollback arm invalidates is decided by the storage queries (both backends)
+    rep.clause("C02.5b both backends' invalidation / retry queries select exactly what the storage contract names (epoch > N; Failed && epoch NULL), whatever the message's own state")
+    sites = sqlmod.collect(prog)
+    as_strs = {}
+    for enum in ("MessageState", "ProcessedMessageState"):
+        try:
+            as_strs[enum] = tables.as_str_table(prog, enum)[0]
+        except Exception as e:  # noqa: BLE001
+            rep.violation("selector-siblings", "%s::as_str" % enum, "cannot extract the variant->string table: %s" % e)
+    sqlrules.clause_selectors(prog, rep, sites, as_strs, only=("invalidate_messages_after_epoch", "invalidate_processed_messages_after_epoch",
+                                                               "find_failed_messages_for_retry", "mark_processed_message_retryable"))
